@@ -48,10 +48,10 @@
 (* the other (MC_WsImpl_pinned.cfg).  The scripts that are replayed into   *)
 (* the code are generated from the model of the tree as it is: since       *)
 (* /repo 4ef0222, 8020218, 8c78f49 that is the repaired model              *)
-(* (MC_WsImpl_script.cfg: FixDup = FixDel = FixInit = TRUE), except for    *)
-(* FixLate = FALSE (open finding: after the close(4409) of a refused       *)
+(* (MC_WsImpl_script.cfg: every Fix constant TRUE).  FixLate = FALSE is    *)
+(* the tree between 8c78f49 and 46bea9c: after the close(4409) of a refused *)
 (* duplicate start the run loop reads on, and a start already buffered is  *)
-(* registered after close() went through `active`).                        *)
+(* registered after close() went through `active`.                         *)
 (***************************************************************************)
 EXTENDS Ws, Json
 
